@@ -17,7 +17,8 @@ Forms == {"ptr", "ptrstruct", "chan", "func", "anonstruct", "complex", "emptyifa
 Positions == {"field", "slice", "array", "mapval", "mapkey", "named", "embedded", "unionmember", "subpkg", "namedslice", "genericarg"}
 Spellings == {"oneletter", "oneletterunion", "shortpkg1", "shortpkg2", "groupedtype", "multiconst", "genericbasic",
               "constunderscore", "emptystruct", "unexportedonly", "enumunexported", "badplaceholder", "unknowncomment",
-              "fixedarrayofslices", "ptrrecvmember", "dupnames", "keyword"}
+              "fixedarrayofslices", "ptrrecvmember", "dupnames", "keyword",
+              "selfslice", "selfmap", "unionlistmember", "mutualnamed", "aliaschain", "promotedmember"}
 Targets == {"go/unions", "go/sqlcrud", "go/sqlcrud+sets", "go/randdata", "sql", "typescript/types", "typescript/api", "dart"}
 
 (* positions Go itself rejects for a form (not well-typed, hence outside the property) *)
